@@ -103,9 +103,12 @@ impl Property for C05 {
         }
         let lang = case.prefs.iter().find(|(k, _)| k == "Language").map(|(_, v)| v.clone()).unwrap_or_default();
         let xml = case.tree.to_xml();
-        if api::set_mathml(&xml).is_err() {
-            return Outcome::reject("set_mathml failed");
-        }
+        let canon = match api::set_mathml(&xml) {
+            Ok(c) => c,
+            Err(_) => return Outcome::reject("set_mathml failed"),
+        };
+        // content that canonicalization lost is C01's (listed) finding: emptiness is judged against the canonical expression
+        let canon_has_content = parse_xml(&canon).map(|t| has_alnum_content(&t)).unwrap_or(true);
         let mut viols = vec![];
         let mut classes = vec![format!("lang:{}", lang)];
         let mut nontrivial = false;
@@ -114,7 +117,7 @@ impl Property for C05 {
                 if let Some((k, what)) = dirty(&s) {
                     viols.push((format!("speech:{}", k), format!("speech contains {}\nprefs: {:?}\nmathml: {}\nspeech: {:?}", what, case.prefs, xml, s)));
                 }
-                if s.trim().is_empty() && has_alnum_content(&case.tree) {
+                if s.trim().is_empty() && has_alnum_content(&case.tree) && canon_has_content {
                     viols.push(("speech:empty".to_string(), format!("speech is empty for an expression with letters/digits\nprefs: {:?}\nmathml: {}", case.prefs, xml)));
                 }
                 nontrivial = (s.contains(',') || s.contains(';')) && case.tree.tokens().iter().any(|t| t.txt().chars().any(|c| !c.is_ascii()));
